@@ -157,7 +157,9 @@ class Runner:
         for _ in range(2):
             n = struct.unpack(">I", body[pos:pos + 4])[0]
             pos += 4 + n
-        return {"kind": "reply", "digests": body[pos:], "why": ""}
+        p2 = 4 + 4 + struct.unpack(">I", body[4:8])[0]
+        named = body[p2 + 4:p2 + 4 + struct.unpack(">I", body[p2:p2 + 4])[0]].decode("latin-1")
+        return {"kind": "reply", "digests": body[pos:], "why": "", "named": named}
 
     def close(self):
         for r in list(self.sess):
@@ -198,6 +200,11 @@ def run(c):
                      "short": ["none", "cap16k", "random"][len(reqs) % 3],
                      "model": [[a * UNIT, b * UNIT] for a, b in expected]})
     nmodel = len(reqs)
+    # fixed: lists of several hash names in every order (raw route: the reply names the algorithm it used)
+    for algs in ("md5,sha1", "sha1,md5", "sha256,md5,sha1", "md5,sha256", "sha1,sha256,md5", "crc32,sha1", "sha256,sha1,md5"):
+        for size, start, length, bsize in ((205121, 0, 0, 65536), (205121, 1000, 70000, 300), (1000, 0, 5000, 0)):
+            reqs.append({"route": "raw", "alg": algs, "size": size, "start": start, "length": length, "bsize": bsize,
+                         "short": "none"})
     reqs += gen_random(rnd, 600 if c.quick else 6000)
     # phase 1: the spec says which ranges must be hashed
     batch = [{"size": q["size"], "start": q["start"], "length": q["length"], "bsize": q["bsize"], "phase": 1}
@@ -220,14 +227,17 @@ def run(c):
             if o["kind"] == "none" and o["why"] == "deadline":     # real-time verdict: once more, doubled deadline
                 o = run_.request(q["route"], q["size"], q["start"], q["length"], q["bsize"], q["alg"],
                                  deadline=2 * run_.deadline, short=q["short"])
-            dl = 16 if q["alg"] == "md5" else 20
-            H = hashlib.md5 if q["alg"] == "md5" else hashlib.sha1
+            names = q["alg"].split(",")
+            named = o.get("named", "")            # only the raw route sees which algorithm the reply names
+            used = named if named in ("md5", "sha1") else next((x for x in names if x in ("md5", "sha1")), "md5")
+            dl = 16 if used == "md5" else 20
+            H = hashlib.md5 if used == "md5" else hashlib.sha1
             data = run_.data(q["size"])
             nd, tail = divmod(len(o["digests"]), dl)
             eq = [o["digests"][j * dl:(j + 1) * dl] == H(data[a:b]).digest()
                   for j, (a, b) in enumerate(want[:nd])]
             rec = {"size": q["size"], "start": q["start"], "length": q["length"], "bsize": q["bsize"], "phase": 2,
-                   "kind": o["kind"], "nd": nd, "tail": tail, "eq": eq}
+                   "kind": o["kind"], "nd": nd, "tail": tail, "eq": eq, "algs": names, "named": named}
             out.append(rec)
             q["obs"] = {"kind": o["kind"], "why": o["why"], "digests": nd, "expected_blocks": len(want)}
             c.case(key=(q["route"], q["alg"], q["size"], q["start"], q["length"], q["bsize"], q["short"]),
